@@ -33,8 +33,8 @@ RULE = ("per padding scheme (OAEP+CRT, PKCS#1 v1.5 without CRT, basic+CRT) sever
 USES_GENERATED = False
 
 CURVES = [12, 13, 14, 15, 23, 24]   # NIST_P256, BSI_P256, SECG_K256, SM2_P256, BN_P256, SM9_P256
-SRC = ("oracle.c", "ops_bn.c", "ops_fp.c", "ops_ep.c", "ops_cp.c")
-DEFS = ("ORACLE_FP", "ORACLE_EP", "ORACLE_EXTRA1=ops_cp")
+SRC = ("oracle.c", "ops_bn.c", "ops_fp.c", "ops_ep.c", "ops_cp.c", "ops_cp_pc.c")
+DEFS = ("ORACLE_FP", "ORACLE_EP", "ORACLE_EXTRA1=ops_cp", "ORACLE_EXTRA2=ops_cp_pc")
 
 
 def _exe(ctx, cfg="base"):
@@ -247,6 +247,10 @@ def rabin_section(ctx, exe, bits, q):
         lines.append("rabin_dec %d %s" % (k, hexs((1).to_bytes(k, "big"))))
         lines.append("rabin_dec %d %s" % (k, hexs(p.to_bytes(k, "big"))))
         lines.append("rabin_dec %d %s" % (k, hexs(rng.bytes(7))))
+        if bits == 512 and ctx.hang_budget > 0:
+            # the all-zero ciphertext (a square root of 0 passes the redundancy test): one instance per run, it costs a watchdog timeout
+            ctx.hang_budget -= 1
+            lines.append("rabin_dec %d %s" % (k, hexs(b"\x00" * k)))
         for _ in range(3 if q else 30):
             lines.append("rabin_dec %d %s" % (k, hexs((rng.bits(8 * k) % n).to_bytes(k, "big"))))
     return lines
@@ -521,9 +525,62 @@ def ec_lines(ctx, cv, q):
 CVS = {}
 
 
+def pc_lines(ctx, q):
+    """pairing-based protocols and the size-hiding PSI (invariants checked on the implementation's outputs)"""
+    rng = ctx.rng
+    out = []
+
+    def ident(n):
+        return bytes(1 + rng.below(255) for _ in range(n)).hex()
+    # Boneh-Franklin IBE: every plaintext length 0..34, content classes, capacities, every octet mutated, truncations, wrong identity
+    for i, ln in enumerate(range(0, 35) if not q else [0, 1, 2, 15, 16, 31, 32, 33, 34]):
+        out.append("ibe %s %s %d %d %s" % (seed(rng), ident(1 + rng.below(12)), 200, 200, hexs(content(rng, ln, i % 5))))
+    idh, m, s = ident(5), rng.bytes(20), seed(rng)
+    for cap, dcap in [(84, 200), (85, 200), (64, 200), (0, 200), (200, 19), (200, 20)]:
+        out.append("ibe %s %s %d %d %s" % (s, idh, cap, dcap, hexs(m)))
+    for pos in (range(85) if not q else sorted(set([0, 1, 32, 33, 64, 65, 84] + [rng.below(85) for _ in range(8)]))):
+        out.append("ibe %s %s 200 200 %s %d %02x" % (s, idh, hexs(m), pos, rng.choice([1, 0x80, 1 + rng.below(255)])))
+    for tl in ([0, 1, 64, 65, 66, 84] if q else range(0, 85)):
+        out.append("ibe %s %s 200 200 %s t %d" % (s, idh, hexs(m), tl))
+    out.append("ibe %s %s 200 200 %s w %s" % (s, idh, hexs(m), ident(5)))
+    out.append("ibe %s %s 200 200 %s w %s" % (s, idh, hexs(m), idh + "01"))
+    # BGN: level-1 decryptions, products and sums of products of small values (decryption is a bounded search)
+    for a, b, c, d in [(0, 0, 0, 0), (1, 1, 0, 5), (0, 9, 3, 0), (7, 11, 13, 2), (40, 40, 1, 1)] + [tuple(rng.below(30) for _ in range(4)) for _ in range(2 if q else 20)]:
+        out.append("bgn %s %x %x %x %x" % (seed(rng), a, b, c, d))
+    # SOK: identity pairs incl. equal, prefix, same-length, order swapped
+    a, b = ident(5), ident(5)
+    for ia, ib in [(a, b), (b, a), (a, a), (a, a + "41"), (a + "41", a), (a[:2], a), ("41", "42"), ("42", "41"), (ident(1), ident(40)), (ident(64), ident(63))]:
+        out.append("sok %s %s %s %d" % (seed(rng), ia, ib, rng.choice([16, 32, 1, 64, 0])))
+    # set intersection: pairing-based (sets of scalars) and size-hiding factoring-based
+    cases = [([1, 2, 3], [2, 3, 4, 5]), ([], [2, 3]), ([1, 2], []), ([7, 7], [7, 3]), ([5], [5]), ([5], [6]), ([1, 2, 3], [4, 5, 6]),
+             ([9, 8, 7, 6], [6, 7, 8, 9]), ([0, 1], [1, 0, 0]), ([1, 2], [2])]
+    for _ in range(2 if q else 20):
+        pool = [rng.bits(rng.choice([8, 64, 200])) for _ in range(6)]
+        cases.append(([rng.choice(pool) for _ in range(rng.below(6))], [rng.choice(pool) for _ in range(rng.below(6))]))
+    for xs, ys in cases:
+        args = (len(xs), ",".join("%x" % x for x in xs) or "-", len(ys), ",".join("%x" % y for y in ys) or "-")
+        out.append("pbpsi %s %d %s %d %s" % ((seed(rng),) + args))
+        out.append("shipsi %s %d %d %s %d %s" % ((seed(rng), rng.choice([256, 512])) + args))
+    # delegated pairing: honest helper, then each helper message altered in turn
+    for v, n in (("pdpub", 3), ("lvpub", 2), ("pdprv", 4), ("lvprv", 3)):
+        for _ in range(2 if q else 10):
+            out.append("pcdel %s %s -1" % (v, seed(rng)))
+        for t in range(n):
+            out.append("pcdel %s %s %d" % (v, seed(rng), t))
+    # triples in G1 / G2 / GT and pairing triples: scalar shares incl. 0, wrap of the sum
+    n = 0xffffffffffffffffffffffffffffffffffffffffffffffffffffffffffffffff
+    for v in ("g1", "g2", "gt", "pc"):
+        for k0, k1 in [(0, 0), (1, 0), (5, 7), (rng.bits(250), rng.bits(250)), (rng.bits(256), rng.bits(256))][:(3 if q else 5)]:
+            out.append("mpcpc %s %s %x %x" % (v, seed(rng), k0, k1))
+    return out
+
+
 def int_stream(ctx, cfg, q, scale):
     exe = _exe(ctx, cfg)
     lines = ["cfg"]
+    if cfg == "cp-basic":
+        # regression: a seed for which cp_rsa_gen draws p = 1 mod 65537 (e not invertible modulo phi)
+        lines.append("rsa_param 44 1125d9")
     rsa_bits = {"base": [1024, 784, 536, 520], "cp-pkcs1": [1024, 512, 96, 80], "cp-basic": [1024, 256, 64, 24], "cp-2048": [2048, 1040]}[cfg]
     if not q:
         rsa_bits = rsa_bits + {"base": [768, 976, 600], "cp-pkcs1": [768, 264, 160], "cp-basic": [512, 40], "cp-2048": [1536]}[cfg]
@@ -548,6 +605,7 @@ def int_stream(ctx, cfg, q, scale):
 def streams(ctx, scale=1):
     q = ctx.tier == "quick"
     res = []
+    ctx.hang_budget = 1
     for cfg in (["base", "cp-pkcs1", "cp-basic"] + ([] if q else ["cp-2048"])):
         res.append(int_stream(ctx, cfg, q, scale))
     exe = _exe(ctx, "base")
@@ -555,6 +613,10 @@ def streams(ctx, scale=1):
     for _ in range(scale):
         lines += mpc_lines(ctx, q)
     res.append({"name": "cp-mpc", "cfg": "base", "exe": exe, "lines": lines})
+    lines = ["cfg"]
+    for _ in range(scale):
+        lines += pc_lines(ctx, q)
+    res.append({"name": "cp-pc", "cfg": "base", "exe": exe, "lines": lines})
     lines = ["cfg"]
     for cid in CURVES:
         kv = curve_info(exe, cid)
@@ -600,6 +662,14 @@ def matches_finding(f, r):
         return op in ("ghpe_enc", "ghpe_add", "ghpe_dec") and any(t.startswith("ghpe.s=") and int(t[7:]) >= 3 for t in tags) and not g.startswith("CRASH")
     if pred == "ecies_shorter_than_tag":
         return op in ("ecies", "ecies_dec") and ("ecies.len<tag" in tags or "ecies.truncated" in tags) and g.startswith("CRASH")
+    if pred == "rsa_gen_noninvertible_e":
+        return op == "rsa_param" and "rc=0" in g and "e*d = 1 mod lcm" in v
+    if pred == "rabin_reject_writes_output":
+        return op in ("rabin_dec", "rabin_enc") and g.endswith("err OUT-MODIFIED") and ("spec=[err]" in v or "m=err]" in v)
+    if pred == "pbpsi_singleton":
+        return op == "pbpsi" and "psi.m=1" in tags and g.startswith("len=0")
+    if pred == "pcdel_ver_accepts_dishonest":
+        return op == "pcdel" and "pcdel.dishonest" in tags and g.startswith("ver=1 eq=0 unity=1")
     if pred == "ecdh_x_leading_zero":
         return op in ("ecdh", "ecdh_key", "ecmqv") and ("ecdh.x-leading-zero" in tags or "ecmqv.x-leading-zero" in tags) and "err" not in g
     return False
